@@ -303,13 +303,23 @@ def refs_of_column(c):
 
 @contract('pydbml._classes.column:Column.get_refs')
 class column_get_refs:
-    tier = 'none'
+    """The references of the column's table (by its first side) in which this column is one of the first-side
+    columns; refused when the column has no table (C17).  The result is *named* refs_of_column(c) for callers."""
+    properties = ('C17', 'C02', 'C10')
     params = {'self': 'Column'}
     pure = True
     ret = 'List[Reference]'
+    returns_defines = True
+    allowed = ('DBMLError', 'IndexError', 'UnknownDatabaseError')
+
+    def raises_TableNotFoundError(self):
+        return self.table is None
 
     def returns(self):
         return refs_of_column(self)
+
+    def ensures_exactly_these(self, result):
+        return list(result) == [r for r in self.table.database.refs if r.col1[0].table == self.table and self in r.col1]
 
 
 def column_options(c):
@@ -342,6 +352,8 @@ class column_render_options:
     params = {'model': 'Column'}
     pure = True
     ret = 'str'
+    # a reference with an empty or mixed-table first side, a table without database: refused by the model (C17)
+    allowed = ('DBMLError', 'IndexError', 'UnknownDatabaseError')
 
     def requires_default_renderable(model):
         return model.table is not None
@@ -361,6 +373,7 @@ class dbml_render_column:
     params = {'model': 'Column'}
     pure = True
     ret = 'str'
+    allowed = ('DBMLError', 'IndexError', 'UnknownDatabaseError')     # the model's own refusals (C17), from get_refs
 
     def requires_named(model):
         return model.table is not None and model.name is not None and model.type is not None and \
